@@ -30,7 +30,8 @@ func (g *Gen) FnPool() []string {
 	case 1:
 		return append(long, "X", "IX", "SCAN", "IXSCAN", "N")
 	case 2:
-		return append(long, "dead", "beef", "0123abcd", "e", "f00")
+		// hex-looking names, also of exactly the lengths digests / ObjectIds / UUIDs have
+		return append(long, "dead", "beef", "0123abcd", "e", "f00", "deadbeefcafe0123", "id_0123456789abcdef", "507f1f77bcf86cd799439011", "a3f5c2d1e4b6978800112233445566ff")
 	case 3:
 		return append(long, "REDACTED", "id", "_", "x1")
 	}
